@@ -117,6 +117,10 @@ fn main() {
             p.max_workers = Some(4);
             p.max_shrink_iters = 3;
             parts.push(p);
+            let mut p = make_part("real-half-body", "CONV/sock", cli.cases(3, 200), props_sock2::c08_half_body_strategy, |_| (), |w, c| props_sock2::c08_half_body_test(w, c));
+            p.max_workers = Some(8);
+            p.max_shrink_iters = 2;
+            parts.push(p);
             let mut p = make_part("real-slow-body", "CONV/sock", cli.cases(16, 600), props_sock2::c08_slow_strategy, |_| (), |w, c| props_sock2::c08_slow_test(w, c));
             p.max_workers = Some(8);
             p.max_shrink_iters = 4;
